@@ -98,6 +98,10 @@ def main(run):
     # a non-minimal initial knowledge (the constructor adds the empty and the grand coalition itself)
     run.prove("reset[initial={3}]", E.sc_env_construct_reset, {"n": 3, "computer": "superadditive_cached", "gap": "l1_norm",
                                                                "initial": [1, 2, 4, 3]})
+    hist = [h for L in (3, 4) for h in E.all_histories(3, L) if any(k == "u" for k, _ in h)]
+    for h in (run.rng.sample(hist, 12) if quick else hist):
+        tag = "".join(f"{k}{j}" for k, j in h)
+        run.prove(f"history[n=3,{tag}]", E.sc_env_history, {"n": 3, "computer": "superadditive_cached", "gap": "l1_norm", "ops": h, "budget": 3})
     run.discharge()
     rows = []
     fams = [("factory", "superadditive_cached"), ("noisy_factory", "superadditive"), ("graph_cycle", "superadditive_cached"),
